@@ -278,15 +278,6 @@ def classes_of(c):
     n = len(prog["pool"])
     if k == "means" and shared_with_different_config(prog, c.get("wms")):
         out.append("shared-prior-config-mixup")
-    if k != "fixed" and c.get("extras"):
-        out.append("collection-nonfloat-constant")
-    if k == "limits":
-        m = min(n, len(mode["limits"]))
-        if any(s["family"] == "loggaussian" for s in prog["pool"][:m]):
-            out.append("with-limits-loggaussian")
-        if any(s["family"] == "uniform" and tightened(s, l) != (unhex(s["lo"]), unhex(s["hi"]))
-               for s, l in zip(prog["pool"][:m], mode["limits"])):
-            out.append("with-limits-keeps-message")
     if k == "bounded":
         b = unhex(mode["b"])
         if b > 0 and any(unhex(f) - b >= unhex(f) + b for f in mode["floats"][:n]):
@@ -663,7 +654,7 @@ def expect_success(c):
             return "fewer limits than parameters"
         for s, (lo, hi) in zip(prog["pool"], mode["limits"]):
             lo, hi = unhex(lo), unhex(hi)
-            if s["family"] in ("uniform", "loggaussian"):     # (a log-gaussian prior raises TypeError before: known finding)
+            if s["family"] in ("uniform", "loggaussian"):
                 if max(lo, unhex(s["lo"])) >= min(hi, unhex(s["hi"])):
                     return "requested limits do not intersect the prior's range"
             elif s["family"] == "gaussian":
@@ -679,11 +670,7 @@ def expect_success(c):
 KNOWN_BY_MESSAGE = [
     # (prefix of the oracle message, finding class that can explain it, required exception or None)
     ("passing raised", "bounded-absorbed", "PriorException"),
-    ("passing raised", "with-limits-loggaussian", "TypeError"),
-    ("unsatisfiable limits raised", "with-limits-loggaussian", "TypeError"),
     ("configuration of a shared prior", "shared-prior-config-mixup", None),
-    ("the new model lost the non-float constants", "collection-nonfloat-constant", None),
-    ("tightened prior does not map the unit interval into its limits", "with-limits-keeps-message", None),
 ]
 
 
@@ -996,7 +983,10 @@ def run(ctx):
     if os.path.isdir(corpus):
         for f in sorted(os.listdir(corpus)):
             if f.endswith(".json"):
-                cases.append(json.load(open(os.path.join(corpus, f))))
+                cc_ = json.load(open(os.path.join(corpus, f)))
+                if "-finding-" in f:
+                    cc_["_pinned"] = f[:-5].split("-finding-", 1)[1]
+                cases.append(cc_)
     cases += [gen_case(ctx, thorough) for _ in range(n)]
     if ctx.replay:
         rp = json.load(open(ctx.replay))
@@ -1012,6 +1002,7 @@ def run(ctx):
         for j, r in enumerate(o["results"]):
             results[ci + j * common.NCPU] = r
     coq_cases, coq_idx = [], []
+    regress = {}            # pinned corpus cases of repaired findings: they must pass the oracle from now on
     for i, (c, r) in enumerate(zip(cases, results)):
         prog = c["program"]
         cls = classes_of(c)
@@ -1040,6 +1031,8 @@ def run(ctx):
         ctx.hist("outcome", "ok" if "ok" in r["out"] else r["out"]["exc"])
         ctx.hist("theorem-hypothesis-wf", tree_wf(r["orig"]["tree"]))
         msgs = oracle(c, r)
+        if c.get("_pinned"):
+            regress[c["_pinned"]] = msgs
         for msg in msgs:
             ctx.oracle["failures"] += 1
             ctx.failure("oracle", msg, c, classes=relevant_classes(msg, c, r),
@@ -1057,6 +1050,11 @@ def run(ctx):
             ctx.sample({"mode": {k: (v if not isinstance(v, list) or len(v) < 8 else v[:8] + ["..."]) for k, v in c["mode"].items()},
                         "features": prog["features"], "n_priors": len(prog["pool"]),
                         "outcome": "ok" if "ok" in r["out"] else r["out"]["exc"]})
+    fixed = {k_["replay"].split("C12-", 1)[1][:-5]: k_ for k_ in common.load_known("C12") if k_.get("status") == "fixed" and k_.get("replay")}
+    for slug, msgs in sorted(regress.items()):
+        if slug in fixed:
+            ctx.obligation("regression:" + fixed[slug]["signature"], "regression", not msgs,
+                           "pinned case of the repaired finding passes" if not msgs else "REGRESSED: " + "; ".join(msgs)[:500])
     if os.path.exists(os.path.join(common.COQ, "C12", "Model.vo")):
         hdr = ctx.header(["Common.PyFloat", "Gen", "Model"]).replace(
             "From PAFC12 Require Import Gen.", "From PAFC01 Require Import ModelTree.\nFrom PAFC12 Require Import Gen.")
@@ -1081,12 +1079,12 @@ MANIFEST = {
             "replacement; success characterised per mode (full over exact numbers for absolute / relative / configured widths of any "
             "sign and for bounded; refuted in binary64 for bounded when value +- b rounds to value); no produced Gaussian has a negative "
             "width; an unshared parameter is configured under its own (class, attribute), refuted for a prior shared between a model and "
-            "its child (known finding). Tied to the code by bit-exact vm_compute correspondence of the passed model, its priors and "
+            "its child (known finding); with_limits by family incl. log-gaussian (repaired d755794). Tied to the code by bit-exact vm_compute correspondence of the passed model, its priors and "
             "exceptions on generated compositions x modes x vectors of any sign/magnitude, plus a direct property oracle (incl. the "
             "af.Result routes, non-float constants of collections, where a tightened prior maps the unit interval)",
     "note": "Trusted: Coq kernel + vm_compute; translator; harness abstraction of live objects; config table read by the harness. Known "
-            "findings (suppressed, narrow classes): shared-prior-config-mixup, collection-nonfloat-constant, with-limits-loggaussian, "
-            "with-limits-keeps-message, bounded-absorbed. Not modelled: AnnotationPriorModel, Array models, deferred arguments, "
+            "findings (suppressed, narrow classes): shared-prior-config-mixup, bounded-absorbed; the pinned cases of the seven repaired "
+            "findings are regression obligations. Not modelled: AnnotationPriorModel, Array models, deferred arguments, "
             "subtraction / negated priors, excluded_classes of copy_with_fixed_priors, the message object of a prior (oracle only), "
             "Result.model caching, jax; arithmetic theorems are over exact rationals, binary64 only on a stated grid and by correspondence.",
     "technique": "machine-checked proof in Coq (hand-written model over the C01 tree + translated leaf formulas) + vm_compute correspondence",
